@@ -4,6 +4,7 @@ import Mrpro.Lemmas.RotationL
 import Mrpro.Lemmas.EulerL
 import Mrpro.Lemmas.MatQuatL
 import Mrpro.Lemmas.RotvecL
+import Mrpro.Lemmas.EulerRoundL
 /-! # C12 — Rotation agrees with the reference implementation it reimplements
 
 What can be stated about the conversions without the transcendental functions: with
@@ -100,5 +101,26 @@ theorem toRotvec_fromRotvec_real (v : M.V3 ℝ) (hv : Real.sqrt (v.x0 * v.x0 + v
 /-- the executable (Float) conversions used by the correspondence check are these generic functions at the Float operations -/
 theorem float_rotvec_is_generic : M.F.fromRotvec = M.fromRotvecG M.F.floatTrig ∧ M.F.toRotvec = M.toRotvecG M.F.floatTrig :=
   ⟨M.F.fromRotvec_eq_G, M.F.toRotvec_eq_G⟩
+
+/-! ### Euler angles: `from_euler(seq, r.as_euler(seq))` is `r` (Bernardes–Viollet algorithm as coded, `M.toEulerG`, over ℝ with
+`Real.sqrt/sin/cos`, `atan2 = arg`, exact gimbal-lock test `eps = 0`) -/
+
+/-- for every unit quaternion, every one of the 12 axis sequences (adjacent axes different), intrinsic and extrinsic, in every branch
+of the algorithm (generic, gimbal lock at 0 and at π): the rotation matrix of `from_euler` of the returned angles is the matrix of `q` -/
+theorem euler_round_trip (q : M.Q ℝ) (hq : q.normSq = 1) {i j k : Nat} (hi : i < 3) (hj : j < 3) (hk : k < 3)
+    (hij : i ≠ j) (hjk : j ≠ k) (extrinsic : Bool) :
+    (M.fromEulerG [i, j, k] ((M.toEulerG M.realTrig Int.cast 0 q [i, j, k] extrinsic).map M.halfSC) (!extrinsic)).toMat = q.toMat :=
+  M.euler_round_trip q hq hi hj hk hij hjk extrinsic
+
+/-- with the code's positive threshold `eps` the same holds whenever neither gimbal-lock branch is taken -/
+theorem euler_round_trip_generic (eps : ℝ) (q : M.Q ℝ) (hq : q.normSq = 1) {i j k : Nat} (hi : i < 3) (hj : j < 3) (hk : k < 3)
+    (hij : i ≠ j) (hjk : j ≠ k) (extrinsic : Bool)
+    (h1 : M.eCase1 eps q (if extrinsic then i else k) j (if extrinsic then k else i) = false)
+    (h2 : M.eCase2 eps q (if extrinsic then i else k) j (if extrinsic then k else i) = false) :
+    (M.fromEulerG [i, j, k] ((M.toEulerG M.realTrig Int.cast eps q [i, j, k] extrinsic).map M.halfSC) (!extrinsic)).toMat = q.toMat :=
+  M.euler_round_trip_generic eps q hq hi hj hk hij hjk extrinsic h1 h2
+
+/-- the executable (Float) `as_euler` model used by the correspondence check is this generic function at the Float operations -/
+theorem float_toEuler_is_generic : M.F.toEuler = M.toEulerG M.F.floatTrig Float.ofInt 1e-7 := M.F.toEuler_eq_G
 
 end C12
